@@ -335,10 +335,158 @@ def subset_rules(cfg, R, B, X):
                     R.violation('C', c, e.loc, 'recorded rule lines of %s differ between the databases' % p.name)
 
 
+def _alignment_witness(T, yparam, fname, a_eff, want, L):
+    """(zone, year) pairs of the shipped basic tables for which "latest rule with FROM below a_eff" and "... below want"
+    pick rules with different SAVE or LETTER at this call site; None when the bounds are not yearTiny + constant."""
+    from .gnf import Poly
+    y0 = Poly.atom(('sym', yparam))
+    offs = []
+    for p in (a_eff, want, L):
+        d = p - y0
+        if not d.is_const():
+            return None
+        offs.append(d.const_value())
+    oa, ow, ol = offs
+    start, until = T.context['startYear'], T.context['untilYear']
+
+    def latest(rules, thr):
+        best = None
+        for r in rules:
+            if r['fromYearTiny'] < thr:
+                key = (r['toYearTiny'] if r['toYearTiny'] < thr else thr - 1, r['inMonth'])
+                if best is None or key > best[0]:
+                    best = (key, r)
+        return best[1] if best else None
+
+    def attrs(r):
+        return (0, ord('-')) if r is None else (r['deltaCode'], r['letter'] if r['letter'] != ord('-') else ord('-'))
+    out = []
+    for short in T.infos:
+        eras = T.zone_eras(short)
+
+        def era_at(yt):
+            for e in eras:
+                if yt < e['untilYearTiny']:
+                    return e
+            return eras[-1]
+        for y in range(start, until):
+            yt = y - 2000
+            era = era_at(yt + ol)
+            if fname == 'addTransitionsForYear' and era is era_at(yt - 1):
+                continue
+            if fname == 'addTransitionAfterYear' and era is era_at(yt):
+                continue
+            pol = era['zonePolicy']
+            if pol is None:
+                continue
+            rules = T.policy_rules(pol.name)
+            ra, rw = latest(rules, yt + oa), latest(rules, yt + ow)
+            if attrs(ra) != attrs(rw):
+                out.append('%s in %d (rule %s instead of %s)' % (T.zone_name(short), y, 'none' if ra is None else '%s[%d]' % (ra.owner, ra.index),
+                                                                  'none' if rw is None else '%s[%d]' % (rw.owner, rw.index)))
+    return out
+
+
+def year_alignment_rule(R, lib, T):
+    """Each transition the basic processor stores is (era of year L, rule in effect at the start of what the
+    transition stands for).  With `latest = findLatestPriorRule(policy, A)` selecting rules whose FROM year is
+    below A (the comparator is read from the function), a transition labelled (L, month 1) stands for 1 January
+    of L and needs A == L; one labelled (L, month 0) takes its month from the rule, stands for "before year L+1"
+    and needs A == L + 1; the era must be findZoneEra(info, L) and the policy must be that era's policy."""
+    from .gnf import Canon, Poly
+    R.rule('D', 'every stored transition pairs the era of its label year with the latest rule before the instant it stands for', floor=3)
+    flp = lib.fns(BASIC + '::findLatestPriorRule')
+    if not flp:
+        raise AnalysisError('anchor vanished: BasicZoneProcessor::findLatestPriorRule')
+    flp = flp[0]
+    yparam = flp.params[1][0]
+    strict = None
+    for e in (x for s in walk_stmts(flp.body) for e0 in stmt_exprs(s) for x in walk_expr(e0)):
+        if e.k == 'bin' and e.a[0] in ('<', '<=', '>', '>='):
+            l, r, op = e.a[1], e.a[2], e.a[0]
+            while l.k == 'cast':
+                l = l.a[2]
+            while r.k == 'cast':
+                r = r.a[2]
+            if r.k == 'call' and r.a[0].endswith('::fromYearTiny') and l.k == 'var' and l.a[0] == yparam:
+                l, r, op = r, l, {'<': '>', '>': '<', '<=': '>=', '>=': '<='}[op]
+            if l.k == 'call' and l.a[0].endswith('::fromYearTiny') and r.k == 'var' and r.a[0] == yparam and op in ('<', '<='):
+                strict = op == '<'
+    R.instance('D', 'BasicZoneProcessor::findLatestPriorRule:comparator', flp.loc, 'rule.fromYearTiny() %s %s' % ('<' if strict else '<=', yparam))
+    if strict is None:
+        R.violation('D', 'BasicZoneProcessor::findLatestPriorRule:comparator', flp.loc, 'no test "rule.fromYearTiny() < %s" selects the rules effective before the given year' % yparam)
+        return
+    n_sites = 0
+    for fname in ('addTransitionPriorToYear', 'addTransitionsForYear', 'addTransitionAfterYear'):
+        fs = lib.fns(BASIC + '::' + fname)
+        if not fs:
+            raise AnalysisError('anchor vanished: BasicZoneProcessor::%s' % fname)
+        f = fs[0]
+        env = {}
+        latest = {}     # var -> (policy receiver path, A)
+        eras = {}       # var -> E
+        for s in walk_stmts(f.body):
+            if s.k == 'decl' and s.a[2] is not None:
+                v = s.a[2]
+                while v.k == 'cast':
+                    v = v.a[2]
+                if v.k == 'call' and v.a[0].endswith('::findLatestPriorRule') and len(v.a[2]) == 2:
+                    pol = v.a[2][0]
+                    while pol.k == 'cast':
+                        pol = pol.a[2]
+                    pol_recv = path_of(pol.a[1]) if pol.k == 'call' and pol.a[0].endswith('::zonePolicy') and pol.a[1] is not None else None
+                    latest[s.a[0]] = (pol_recv, Canon(env=dict(env), fold_global=lib.global_value)(v.a[2][1]))
+                elif v.k == 'call' and v.a[0].endswith('::findZoneEra') and len(v.a[2]) == 2:
+                    eras[s.a[0]] = Canon(env=dict(env), fold_global=lib.global_value)(v.a[2][1])
+            for e0 in stmt_exprs(s):
+                for e in walk_expr(e0):
+                    if not (e.k == 'call' and e.a[0] == BASIC + '::addTransition' and len(e.a[2]) == 4):
+                        continue
+                    L = Canon(env=dict(env), fold_global=lib.global_value)(e.a[2][0])
+                    M = Canon(env=dict(env), fold_global=lib.global_value)(e.a[2][1])
+                    era_v, rule_v = e.a[2][2], e.a[2][3]
+                    while era_v.k == 'cast':
+                        era_v = era_v.a[2]
+                    while rule_v.k == 'cast':
+                        rule_v = rule_v.a[2]
+                    c = 'BasicZoneProcessor::%s:addTransition@%s' % (fname, (e.loc or '').split(':')[-1])
+                    cc = 'BasicZoneProcessor::%s:addTransition(%s)' % (fname, show(rule_v))
+                    n_sites += 1
+                    R.instance('D', cc, e.loc)
+                    ev = path_of(era_v) if era_v.k == 'var' else None
+                    if ev in eras:
+                        if eras[ev] != L:
+                            R.violation('D', cc, e.loc, 'the transition is labelled year %r but carries the era found for year %r' % (L, eras[ev]))
+                    rv = path_of(rule_v) if rule_v.k == 'var' else None
+                    if rv in latest:
+                        pol_recv, A = latest[rv]
+                        if not M.is_const():
+                            R.violation('D', cc, e.loc, 'month argument %r is not a constant' % M)
+                            continue
+                        a_eff = A if strict else A + Poly.const(1)
+                        want = L + Poly.const(1 if M.const_value() == 0 else 0)
+                        if a_eff != want:
+                            wit = _alignment_witness(T, f.params[0][0], fname, a_eff, want, L)
+                            msg = ('the rule is the latest with FROM year below %r, but the transition (label year %r, month %d) stands for '
+                                   'the state %s and needs the latest rule below %r' % (
+                                       a_eff, L, M.const_value(), 'before year %r' % want if M.const_value() == 0 else 'on 1 January of %r' % L, want))
+                            if wit is None:
+                                R.violation('D', cc, e.loc, msg + '; the two bounds are not both "the cache year plus a constant", so the effect on the shipped zones cannot be enumerated')
+                            elif wit:
+                                R.violation('D', cc, e.loc, msg + '; %d shipped (zone, year) pairs get a different rule, e.g. %s' % (len(wit), '; '.join(wit[:3])))
+                            else:
+                                R.undecided_obligation('D', cc, e.loc, msg + '; no shipped basic zone and year 2000..2049 selects a different rule, so C02 as quantified still holds')
+                        if pol_recv is not None and ev is not None and pol_recv != ev:
+                            R.violation('D', cc, e.loc, 'the rule is looked up in the policy of era %s but stored with era %s' % (pol_recv, ev))
+    if n_sites < 3:
+        raise AnalysisError('anchor moved: only %d addTransition sites in the three year helpers' % n_sites)
+
+
 def run(cfg):
     R = Report('C02', cfg)
     lib = cxx.load_lib(cfg)
     B = tables.CxxTables(cfg, 'zonedb')
+    year_alignment_rule(R, lib, B)
     X = tables.CxxTables(cfg, 'zonedbx')
     R.analysed['translation_units'] = ['tu/lib.cpp', 'tu/tables_zonedb.cpp', 'tu/tables_zonedbx.cpp']
     data_rules(cfg, R, lib, B)
@@ -366,6 +514,19 @@ SELFTEST = [
          replace='      addTransition(yearTiny - 1, 0 /*month*/, era, latest);\n      addTransition(yearTiny - 1, 0 /*month*/, era, latest);\n      addTransition(yearTiny - 1, 0 /*month*/, era, latest);\n', rule='A5'),
     dict(id='year-filter-removed', file='src/ace_time/BasicZoneProcessor.h', regex=True,
          find=r'        if \(\(rule.fromYearTiny\(\) <= yearTiny\) &&\n            \(yearTiny <= rule.toYearTiny\(\)\)\) \{', replace='        {', rule='A5'),
+    dict(id='prior-rule-looked-up-a-year-early', file='src/ace_time/BasicZoneProcessor.h',
+         find='      basic::ZoneRuleBroker latest = findLatestPriorRule(\n          era.zonePolicy(), yearTiny);', replace='      basic::ZoneRuleBroker latest = findLatestPriorRule(\n          era.zonePolicy(), yearTiny - 1);',
+         rule='D', construct='addTransitionPriorToYear'),
+    dict(id='prior-comparator-inclusive', file='src/ace_time/BasicZoneProcessor.h',
+         find='        if (rule.fromYearTiny() < yearTiny) {', replace='        if (rule.fromYearTiny() <= yearTiny) {', rule='D'),
+    dict(id='era-change-bound-without-shipped-effect-silent', file='src/ace_time/BasicZoneProcessor.h',
+         find='        basic::ZoneRuleBroker latestPrior = findLatestPriorRule(\n            era.zonePolicy(), yearTiny);', replace='        basic::ZoneRuleBroker latestPrior = findLatestPriorRule(\n            era.zonePolicy(), yearTiny + 1);',
+         expect='silent'),
+    dict(id='prior-transition-era-of-wrong-year', file='src/ace_time/BasicZoneProcessor.h',
+         find='      const basic::ZoneEraBroker era = findZoneEra(mZoneInfo, yearTiny - 1);', replace='      const basic::ZoneEraBroker era = findZoneEra(mZoneInfo, yearTiny);', rule='D', construct='addTransitionPriorToYear'),
+    dict(id='after-year-bound-without-shipped-effect-silent', file='src/ace_time/BasicZoneProcessor.h',
+         find='      basic::ZoneRuleBroker latest = findLatestPriorRule(\n          eraAfter.zonePolicy(), yearTiny + 1);', replace='      basic::ZoneRuleBroker latest = findLatestPriorRule(\n          eraAfter.zonePolicy(), yearTiny);',
+         expect='silent'),
     dict(id='basic-filter-unscoped', file='tools/tzdb/transformer.py',
          find="        if self.scope == 'basic':\n            rules_map = self._remove_rules_long_dst_letter(rules_map)",
          replace="        if self.scope == 'extended':\n            rules_map = self._remove_rules_long_dst_letter(rules_map)", rule='B'),
